@@ -362,6 +362,8 @@ def scipy_models():
             p0, p1, q0, q1 = p1, p0, q1, q0
         for _ in range(int(num(maxiter))):
             if q1 == q0:
+                if p1 != p0:
+                    raise ExcRaised(Ref('builtin:RuntimeError'))       # "Tolerance of ... reached" (disp=True, the default)
                 return (p1 + p0) / 2.0
             if abs(q1) > abs(q0):
                 p = (-q0 / q1 * p1 + p0) / (1 - q0 / q1)
@@ -375,3 +377,65 @@ def scipy_models():
         raise ExcRaised(Ref('builtin:RuntimeError'))
     newton.wants_interp = True
     return {'ext:scipy.optimize.newton': newton}
+
+
+# ------------------------------------------------------------------------------------------------------------
+# numpy_financial.pv / pmt: the documented closed forms (when = 'end' | 0 -> 0, 'begin' | 1 -> 1). At rate 0 the library still
+# evaluates the general branch inside numpy.where (0/0): a warning under numpy's default error state, FloatingPointError when the
+# process-wide state says 'raise' for invalid operations.
+# ------------------------------------------------------------------------------------------------------------
+def npf_models():
+    def when_(w):
+        return {'end': 0, 'begin': 1, 0: 0, 1: 1}[w]
+
+    def zero_rate(interp):
+        if np_err(interp).get('invalid') == 'raise':
+            raise ExcRaised(Ref('builtin:FloatingPointError'))
+
+    def pv(interp, rate, nper, pmt, fv=0, when='end'):
+        if any(isinstance(x, bool) or not isinstance(x, (int, float)) for x in (rate, nper, pmt, fv)):
+            raise Unmodelled('numpy_financial.pv on non-numbers')
+        w = when_(when)
+        if rate == 0:
+            zero_rate(interp)
+            return float(-(fv + pmt * nper))
+        t = (1 + rate) ** nper
+        return -(fv + pmt * (1 + rate * w) / rate * (t - 1)) / t
+    pv.wants_interp = True
+
+    def pmt(interp, rate, nper, pv, fv=0, when='end'):
+        if any(isinstance(x, bool) or not isinstance(x, (int, float)) for x in (rate, nper, pv, fv)):
+            raise Unmodelled('numpy_financial.pmt on non-numbers')
+        w = when_(when)
+        if rate == 0:
+            zero_rate(interp)
+            return float(-(fv + pv) / nper)
+        t = (1 + rate) ** nper
+        return -(fv + pv * t) / ((1 + rate * w) / rate * (t - 1))
+    pmt.wants_interp = True
+    def irr(values, **kw):
+        """numpy_financial.irr: the rate at which the net present value of the flows (in the order given) is zero - here by bisection
+        on (-1, 1e6) for flows with a root there, nan otherwise (the library's answer when it finds no real root)."""
+        flows = [x.f['value'] if isinstance(x, Rec) and str(x.f.get('cls', '')).endswith(':Number') else x for x in values]     # numpy reads numbers through float()
+        if kw or any(isinstance(x, bool) or not isinstance(x, (int, float)) for x in flows):
+            raise Unmodelled('numpy_financial.irr on non-numbers')
+
+        def npv(r):
+            return sum(v / (1 + r) ** i for i, v in enumerate(flows))
+        lo, hi = -0.999999, 1e6
+        flo, fhi = npv(lo), npv(hi)
+        if flo == 0:
+            return lo
+        if flo * fhi > 0:
+            return float('nan')
+        for _ in range(300):
+            mid = (lo + hi) / 2
+            fm = npv(mid)
+            if fm == 0:
+                return mid
+            if flo * fm < 0:
+                hi = mid
+            else:
+                lo, flo = mid, fm
+        return (lo + hi) / 2
+    return {'ext:numpy_financial.pv': pv, 'ext:numpy_financial.pmt': pmt, 'ext:numpy_financial.irr': irr}
